@@ -1,5 +1,50 @@
 use boa_sim::harness::{self, Tier, harness_error};
 
+/// The workers run under an address-space cap (`harness::cap_address_space`). When an allocation
+/// fails there, Rust aborts the process; this wrapper first tells the orchestrator why, so that the
+/// death of the worker is counted as the sandbox running out of memory and not as an engine abort.
+struct MarkingAllocator;
+
+// SAFETY: every call is forwarded unchanged to the system allocator.
+unsafe impl std::alloc::GlobalAlloc for MarkingAllocator {
+    unsafe fn alloc(&self, layout: std::alloc::Layout) -> *mut u8 {
+        let p = unsafe { std::alloc::System.alloc(layout) };
+        if p.is_null() {
+            oom_marker();
+        }
+        p
+    }
+    unsafe fn dealloc(&self, ptr: *mut u8, layout: std::alloc::Layout) {
+        unsafe { std::alloc::System.dealloc(ptr, layout) }
+    }
+    unsafe fn alloc_zeroed(&self, layout: std::alloc::Layout) -> *mut u8 {
+        let p = unsafe { std::alloc::System.alloc_zeroed(layout) };
+        if p.is_null() {
+            oom_marker();
+        }
+        p
+    }
+    unsafe fn realloc(&self, ptr: *mut u8, layout: std::alloc::Layout, new_size: usize) -> *mut u8 {
+        let p = unsafe { std::alloc::System.realloc(ptr, layout, new_size) };
+        if p.is_null() {
+            oom_marker();
+        }
+        p
+    }
+}
+
+fn oom_marker() {
+    unsafe extern "C" {
+        fn write(fd: i32, buf: *const u8, count: usize) -> isize;
+    }
+    const MSG: &[u8] = b"\nOOM\n";
+    // SAFETY: plain write(2) of a static buffer to stdout; no allocation on this path.
+    let _ = unsafe { write(1, MSG.as_ptr(), MSG.len()) };
+}
+
+#[global_allocator]
+static ALLOCATOR: MarkingAllocator = MarkingAllocator;
+
 fn main() {
     let args: Vec<String> = std::env::args().collect();
     if args.len() >= 2 && args[1] == "kernels" {
